@@ -70,11 +70,34 @@ def driver_hash():
         return hashlib.sha256(fh.read()).hexdigest()
 
 
-def run_driver(root, cargo_args, crates="similar", wrapper_all=False, timeout=600):
-    """Returns dict crate->facts (parsed JSON)."""
+def _forget_members(tgt, names):
+    """Make cargo re-run the wrapper for the workspace members (dependencies stay compiled)."""
+    import glob
+    for n in names:
+        n = n.replace("-", "_")
+        for pat in ("debug/.fingerprint/%s-*" % n, "debug/.fingerprint/%s-*" % n.replace("_", "-"),
+                    "debug/deps/lib%s-*" % n, "debug/deps/%s-*" % n, "debug/incremental/%s-*" % n):
+            for p in glob.glob(os.path.join(tgt, pat)):
+                if os.path.isdir(p):
+                    shutil.rmtree(p, ignore_errors=True)
+                else:
+                    try:
+                        os.remove(p)
+                    except OSError:
+                        pass
+
+
+def run_driver(root, cargo_args, crates="similar", wrapper_all=False, timeout=600, tag="x"):
+    """Returns dict crate->facts (parsed JSON).
+
+    The target directory is kept per configuration so that dependencies are compiled once; the
+    fingerprints of the analysed crates are deleted before every run, which forces cargo to invoke
+    the wrapper again (and the presence of the fresh fact file is asserted)."""
     os.makedirs(CACHE, exist_ok=True)
     tmp = tempfile.mkdtemp(prefix="run-", dir=CACHE)
-    tgt = os.path.join(tmp, "target")
+    tgt = os.path.join(CACHE, "target-%s" % tag)
+    os.makedirs(tgt, exist_ok=True)
+    _forget_members(tgt, ["similar"] + crates.split(","))
     out = os.path.join(tmp, "out")
     os.makedirs(out)
     env = dict(os.environ)
@@ -107,7 +130,7 @@ def run_driver(root, cargo_args, crates="similar", wrapper_all=False, timeout=60
 def get_facts(config, root="/repo", use_cache=True):
     """Facts of crate `similar` at `root` for a named feature configuration."""
     args = CONFIGS[config]
-    key = hashlib.sha256((tree_hash(root) + driver_hash() + config + "v1").encode()).hexdigest()[:32]
+    key = hashlib.sha256((tree_hash(root) + driver_hash() + config + "v2").encode()).hexdigest()[:32]
     os.makedirs(CACHE, exist_ok=True)
     cpath = os.path.join(CACHE, "facts-%s.json" % key)
     lock = open(os.path.join(CACHE, "lock-%s" % config), "w")
@@ -123,7 +146,7 @@ def get_facts(config, root="/repo", use_cache=True):
             except Exception:
                 pass
         t0 = time.time()
-        d = run_driver(root, args)["similar"]
+        d = run_driver(root, args, tag=config)["similar"]
         d["_driver_s"] = round(time.time() - t0, 2)
         d["_config"] = config
         tmpf = cpath + ".tmp%d" % os.getpid()
@@ -175,7 +198,7 @@ def get_fixture_facts(root="/repo"):
                 fh.write(ct)
             if os.path.isfile(os.path.join(root, "Cargo.lock")):
                 shutil.copy(os.path.join(root, "Cargo.lock"), os.path.join(fxw, "Cargo.lock"))
-            d = run_driver(fxw, [], crates="simfix", wrapper_all=True)["simfix"]
+            d = run_driver(fxw, [], crates="simfix", wrapper_all=True, tag="fixtures")["simfix"]
         finally:
             shutil.rmtree(work, ignore_errors=True)
         tmpf = cpath + ".tmp%d" % os.getpid()
